@@ -100,6 +100,12 @@ Definition v_tensordot_check (ea eb : list Z) : res pyv :=
 Definition v_dot_1d_check (la lb : Z) : res pyv :=
   sv_dot_1d_shape_check (VTuple [VInt la]) (VTuple [VInt lb]).
 
+(* matmul(a, b): `if a.ndim == 0 or b.ndim == 0: raise ValueError` *)
+Definition v_matmul_0d_check (nda ndb : Z) : res pyv := sv_matmul_0d_check (VInt nda) (VInt ndb).
+
+(* einsum: `if output_subscript.count(char) != 1: raise ValueError`, cnt = occurrences of the character in the output *)
+Definition v_einsum_out_count_check (cnt : Z) : res pyv := sv_einsum_out_count_check (VInt cnt).
+
 Definition tuple_items (v : pyv) : res (list pyv) :=
   match v with VTuple l => Ok l | _ => Raise TypeError end.
 
@@ -148,7 +154,9 @@ Inductive vop :=
 | MContract (ea eb : list Z)
 | MCooInit (ndata ncols nshape nrows : Z)
 | MCaxes (ndim : Z) (ca : option (list Z))
-| MDot1d (la lb : Z).
+| MDot1d (la lb : Z)
+| MMatmulNd (nda ndb : Z)
+| MEinsumOut (cnt : Z).
 
 Definition verdict {A} (r : res A) : option exc := match r with Ok _ => None | Raise e => Some e end.
 
@@ -167,6 +175,8 @@ Definition model_verdict (m : vop) : option (option exc) :=
   | MCooInit a b c d => Some (verdict (v_coo_init a b c d))
   | MCaxes nd ca => Some (verdict (v_check_caxes nd ca))
   | MDot1d a b => Some (verdict (v_dot_1d_check a b))
+  | MMatmulNd a b => Some (verdict (v_matmul_0d_check a b))
+  | MEinsumOut c => Some (verdict (v_einsum_out_count_check c))
   end.
 
 (* NumPy's verdict on the same argument (Spec/NpValid.v); true = accepts *)
@@ -184,6 +194,8 @@ Definition vop_np_accepts (m : vop) : bool :=
   | MCooInit a b c d => negb (negb (c =? 0) && (negb (a =? b) || negb (c =? d)))
   | MCaxes nd ca => caxes_ok nd ca
   | MDot1d a b => a =? b
+  | MMatmulNd a b => negb ((a =? 0) || (b =? 0))     (* numpy.matmul: operands need at least one dimension *)
+  | MEinsumOut c => c =? 1                          (* numpy.einsum: an output subscript appears once *)
   end.
 
 Definition clean (e : exc) : bool :=
